@@ -16,7 +16,7 @@ from ..model import AnalysisError, Func, parse_shape_text
 from ..terms import T, walk_terms
 from ..absint import AV, TOP, cav, is_bot
 from ..walk import (call_parts, call_arg, is_call_to, const_val, NOVAL, unwrap_gamma, mult_factors, call_paths, callee_func,
-                    callee_name, ctx_tree, norm_stmt, strip_views)
+                    callee_name, ctx_tree, norm_stmt, strip_views, guard_means_given, newaxis_insertions)
 from ..nptable import einsum_parse
 
 D = 'pb_bss.distribution.'
@@ -70,6 +70,42 @@ def floored_sum(den):
             ax = call_arg(s, 1, 'axis')
             kd = call_arg(s, 3, 'keepdims')
             return s, call_arg(s, 0, 'a'), const_val(ax) if ax is not None else None, const_val(kd) if kd is not None else False, True
+    return None
+
+
+def class_sum_form(den):
+    """den == the sum of X over ONE axis a, with that axis kept or re-inserted at position p:
+         np.sum(X, axis=a, keepdims=True) | np.sum(X, axis=a)[..., None, :] | np.einsum('...kn->...n', X)[..., None, :]
+    -> (X, a, p) (a, p negative = counted from the right) or None"""
+    den = strip_views(den)
+    ins = newaxis_insertions(den)
+    inner, p = (den, None) if ins is None else (strip_views(ins[0]), ins[1])
+    if p is not None and len(p) != 1:
+        return None
+    if is_call_to(inner, 'numpy.sum'):
+        ax, kd = call_arg(inner, 1, 'axis'), call_arg(inner, 3, 'keepdims')
+        a = const_val(ax) if ax is not None else None
+        kd = const_val(kd) if kd is not None else False
+        if not isinstance(a, int) or isinstance(a, bool):
+            return None
+        if kd is True and p is None:
+            return call_arg(inner, 0, 'a'), a, a
+        if kd is False and p is not None:
+            return call_arg(inner, 0, 'a'), a, p[0]
+        return None
+    if is_call_to(inner, 'numpy.einsum') and p is not None:
+        sub = const_val(call_arg(inner, 0))
+        try:
+            ins_, out = einsum_parse(sub)
+        except Exception:
+            return None
+        if len(ins_) != 1:
+            return None
+        inl, outl = ins_[0].replace('...', ''), out.replace('...', '')
+        removed = [c for c in inl if c not in outl]
+        if len(removed) != 1 or [c for c in inl if c in outl] != list(outl):
+            return None
+        return call_arg(inner, 1), inl.index(removed[0]) - len(inl), p[0]
     return None
 
 
@@ -162,7 +198,7 @@ def check_posterior_routine(run, A, qual, class_axis, want_weight, want_mask, mi
                       construct=f'ORDER::{qual}::weight-factor')
         if want_mask:
             c = names.get('source_activity_mask', 'missing')
-            ok = c not in (None, 'missing') and isinstance(c, tuple) and c[1] is True
+            ok = c not in (None, 'missing') and guard_means_given(c, 'source_activity_mask')
             run.check(ok, 'ORDER', f'{short}: activity mask multiplies before normalisation when given', where,
                       'source_activity_mask is a factor under `is not None`',
                       'the source activity mask is not applied to the unnormalised posterior (inactive classes would not be exactly zero / renormalised)',
@@ -372,54 +408,35 @@ def check_weights_and_initialisers(run, A):
                   'mean affiliation is not taken over weight_constant_axis with keepdims=True', construct='R-AXIS::estimate_mixture_weight::mean-axis')
     if not means:
         raise AnalysisError('estimate_mixture_weight: np.mean over weight_constant_axis vanished')
-    # random uniform initialisations
+    # random uniform initialisations: wherever a uniform draw is divided, the divisor is its own sum over the class axis (-2),
+    # kept / re-inserted at -2 (in place or not, einsum or np.sum, inline or through a helper introduced later)
     n_init = 0
     for q in TRAINERS_WITH_RANDOM_INIT:
         f = prog.func(q)
         gg = A.graphs.get(f)
         found = 0
-        seen = set()
-        for e in gg.events:
-            if e.kind != 'inplace' or e.term.op != 'iop' or e.term.args[0] != 'Div':
-                continue
-            num, den = e.term.args[1], e.term.args[2]
+        for dv in _division_terms(gg):
+            num, den = dv.args[1], dv.args[2]
             if not is_call_to(strip_views(num), 'numpy.random.uniform'):
                 continue
             found += 1
             n_init += 1
-            where = f.loc(e.node)
-            ok, detail = False, ''
-            if den.op == 'sub' and is_call_to(den.args[0], 'numpy.einsum'):
-                es = den.args[0]
-                sub = const_val(call_arg(es, 0))
-                opnd = call_arg(es, 1)
-                idx = den.args[1]
-                try:
-                    ins, out = einsum_parse(sub)
-                    inl, outl = ins[0].replace('...', ''), out.replace('...', '')
-                    removed = [c for c in inl if c not in outl]
-                    pos_removed = inl.index(removed[0]) - len(inl) if len(removed) == 1 else None
-                    items = [const_val(x) if x.op != 'slice' else 'slice' for x in idx.args[0]] if idx.op == 'tuple' else []
-                    none_pos = None
-                    if items and items[0] is Ellipsis:
-                        tail = items[1:]
-                        if tail.count(None) == 1:
-                            none_pos = tail.index(None) - len(tail)
-                    ok = opnd is num and pos_removed == -2 and none_pos == pos_removed
-                    detail = f'einsum {sub!r} removes axis {pos_removed}, re-inserted at {none_pos}'
-                except Exception as ex:
-                    detail = f'unparsable einsum normalisation ({ex})'
+            where = f.loc(dv.node)
+            cs = class_sum_form(den)
+            ok = cs is not None and strip_views(cs[0]) is strip_views(num) and cs[1] == -2 and cs[2] == -2
+            detail = f'divisor sums axis {cs[1]} and keeps it at {cs[2]}' if cs is not None else 'divisor is not a sum of the drawn array over one axis'
             # the drawn array has the class count on axis -2
             size = call_arg(strip_views(num), None, 'size')
             size_ok = False
             if size is not None:
                 for alt in unwrap_gamma(size):
+                    alt = strip_views(alt)
                     if alt.op == 'tuple' and len(alt.args[0]) >= 2:
                         k = alt.args[0][-2]
                         size_ok = any(x.op == 'param' and x.args[0] == 'num_classes' for x in walk_terms(k))
                     elif alt.op == 'sub':
                         # affiliation_shape[-2:] of a tuple (…, num_classes, N)
-                        base = alt.args[0]
+                        base = strip_views(alt.args[0])
                         if base.op == 'tuple' and len(base.args[0]) >= 2:
                             k = base.args[0][-2]
                             size_ok = any(x.op == 'param' and x.args[0] == 'num_classes' for x in walk_terms(k))
@@ -427,19 +444,18 @@ def check_weights_and_initialisers(run, A):
                       f'uniform start is not divided by its sum over the class axis (-2) re-inserted at -2 ({detail}; class count on axis -2: {size_ok})',
                       construct=f'R-AXIS::{q}::random-init')
         if found == 0:
-            raise AnalysisError(f'{q}: random-uniform initialisation normalised in place not found')
+            raise AnalysisError(f'{q}: normalisation of the random-uniform initialisation not found')
     run.floor('random-uniform initialisations', n_init, 9)
     # flag
     f = prog.func('pb_bss.initializer.deterministic::flag')
     gg = A.graphs.get(f)
-    divs = [e for e in gg.events if e.kind == 'inplace' and e.term.op == 'iop' and e.term.args[0] == 'Div']
+    divs = [(dv, class_sum_form(dv.args[2])) for dv in _division_terms(gg)]
+    divs = [(dv, cs) for dv, cs in divs if cs is not None]
     if not divs:
         raise AnalysisError('flag: normalisation vanished')
-    for e in divs:
-        den = e.term.args[2]
-        ok = is_call_to(den, 'numpy.sum') and const_val(call_arg(den, 1, 'axis')) == -2 and const_val(call_arg(den, None, 'keepdims')) is True \
-            and call_arg(den, 0) is e.term.args[1]
-        run.check(ok, 'R-AXIS', 'flag: renormalised over the class axis', f.loc(e.node), 'init /= sum(init, axis=-2, keepdims=True)',
+    for dv, cs in divs:
+        ok = cs[1] == -2 and cs[2] == -2 and strip_views(cs[0]) is strip_views(dv.args[1])
+        run.check(ok, 'R-AXIS', 'flag: renormalised over the class axis', f.loc(dv.node), 'init / sum(init, axis=-2, keepdims=True)',
                   'flag initialiser is not normalised by its own sum over axis -2', construct='R-AXIS::flag::normalisation')
     bc = [e.term for e in gg.events if e.kind == 'call' and is_call_to(e.term, 'numpy.broadcast_to')]
     okb = False
@@ -454,9 +470,10 @@ def check_weights_and_initialisers(run, A):
     gg = A.graphs.get(f)
     ok = False
     for t in unwrap_gamma(gg.ret):
-        if t.op == 'binop' and t.args[0] == 'Div':
-            den = t.args[2]
-            ok = is_call_to(den, 'numpy.sum') and const_val(call_arg(den, 1, 'axis')) == 0 and const_val(call_arg(den, None, 'keepdims')) is True and call_arg(den, 0) is t.args[1]
+        t = strip_views(t)
+        if t.op in ('binop', 'iop') and t.args[0] == 'Div':
+            cs = class_sum_form(t.args[2])
+            ok = cs is not None and cs[1] == 0 and cs[2] == 0 and strip_views(cs[0]) is strip_views(t.args[1])
     run.check(ok, 'R-AXIS', 'deflationSeed: normalised over its class axis (0)', f.loc(), '', 'deflation posterior is not divided by its sum over axis 0', construct='R-AXIS::deflationSeed::normalisation')
     # dirichlet / one_hot: class axis moved to -2
     for name in ('dirichlet', 'one_hot'):
@@ -545,7 +562,8 @@ def _operand_descriptor(t, ev, ctx, depth=0):
         return 'param:' + t.args[0]
     if t.op == 'call':
         n, _, _ = call_parts(t)
-        return 'call:' + str(n)
+        from ..walk import canon
+        return 'call:' + str(canon(n))
     if t.op in ('binop', 'iop'):
         return 'binop:' + t.args[0]
     return t.op
@@ -684,9 +702,13 @@ def check_unsqueeze(run, A):
     for cname, mod_ in (('GCACGMM', 'gcacgmm'), ('VMFCACGMM', 'vmfcacgmm')):
         fp = A.prog.func(f'{D}{mod_}::{cname}._predict')
         gp = A.graphs.get(fp)
-        calls = [e.term for e in gp.events if e.kind == 'call' and call_parts(e.term)[0] == q]
-        ok = len(calls) >= 2 and all(strip_views(call_arg(c, 0)).op == 'attr' and strip_views(call_arg(c, 0)).args[1] == 'weight' and
-                                     strip_views(call_arg(c, 1)).op == 'attr' and strip_views(call_arg(c, 1)).args[1] == 'weight_constant_axis' for c in calls)
+        posts = [e.term for e in gp.events if e.kind == 'call' and call_parts(e.term)[0] in (POSTERIOR, POSTERIOR_PA)]
+
+        def is_unsq(w):
+            w = strip_views(w) if w is not None else None
+            return w is not None and call_parts(w)[0] == q and strip_views(call_arg(w, 0)).op == 'attr' and strip_views(call_arg(w, 0)).args[1] == 'weight' and \
+                strip_views(call_arg(w, 1)).op == 'attr' and strip_views(call_arg(w, 1)).args[1] == 'weight_constant_axis'
+        ok = len(posts) >= 2 and all(is_unsq(call_arg(c, 0, 'weight')) for c in posts)
         run.check(ok, 'R-AXIS', f'{cname}._predict: unsqueeze(self.weight, self.weight_constant_axis)', fp.loc(), '', 'weights are not re-expanded along the stored tied axes',
                   construct=f'R-AXIS::{fp.qual}::unsqueeze-args')
         fm = A.prog.func(f'{D}{mod_}::{cname}Trainer._m_step')
